@@ -178,3 +178,35 @@ func (s *Sim) RandomQuery() *Rec {
 	}
 	return s.Query(path, data, h)
 }
+
+// QueryTouched asks, right after a CheckTx or DeliverTx of bz, for the objects that transaction touches (sender and
+// receiver account, their rewards, stakes and delegatee records) at the latest height (0 and the explicit number):
+// the answers must still be the committed ones, whatever the mempool view or the executing block hold.
+func (s *Sim) QueryTouched(bz []byte) {
+	tx := &ctrlertypes.Trx{}
+	if tx.Decode(bz) != nil {
+		return
+	}
+	r := s.R
+	hs := []int64{0}
+	if s.Height >= 1 && r.Bool() {
+		hs = append(hs, s.Height)
+	}
+	for _, a := range [][]byte{tx.From, tx.To} {
+		if len(a) != 20 {
+			continue
+		}
+		paths := []string{"account"}
+		switch r.Intn(4) {
+		case 0:
+			paths = append(paths, "reward")
+		case 1:
+			paths = append(paths, "delegatee")
+		case 2:
+			paths = append(paths, "stakes")
+		}
+		for _, p := range paths {
+			s.Query(p, a, hs[r.Intn(len(hs))])
+		}
+	}
+}
